@@ -36,6 +36,7 @@ class Verifier:
         self.havoced: set = set()
         self.contracts_used: set = set()
         self.externals_used: set = set()
+        self.vacuity_obligations: list = []
 
     # ------------------------------------------------------------------ driver
     def run(self):
@@ -116,6 +117,8 @@ class Verifier:
         post_env.vars["result"] = result
         if c.trace_name:
             post_env.vars[c.trace_name] = PyList(fr.trace) if not getattr(fr, "trace_sym", None) else fr.trace_sym
+        vo = Obligation(self.c.target.split("inline_snapshot.", 1)[-1], "vacuity", "exit-reachable", [], list(I.ctx.pc), z3.BoolVal(False), self.path_id)
+        self.vacuity_obligations.append(vo)
         if raised is not None:
             self.cover(I, f"raise:{raised.cls}")
             spec = None
@@ -242,7 +245,10 @@ class Verifier:
         I.ctx.assume(goal, tag=name.split(".")[-1] if kind != "post" else name)
 
     def safety_props(self, qual):
-        return list(self.c.safety_props)
+        # an invariant / safety / call-site obligation supports every tagged clause of the contract
+        from .contract import contract_props
+
+        return contract_props(self.c)
 
     def add_obligation(self, I: Interp, kind, label, goal, props=None, where="", using=None):
         if isinstance(goal, bool):
